@@ -4,4 +4,5 @@ TI == 0..15
 TG == 1..17
 NoToks == {}
 NoSamples == {}
+NoScheds == {}
 =============================================================================
